@@ -169,3 +169,10 @@ def setdata_updates_task(chk, rule: str):
     wit = must_pass(fsd.cfg, lambda n: node_calls(n, "pdo_parent.update"))
     chk.check(wit is None, rule, f"{PB}:PdoVariable.set_data | every write refreshes the periodic task", sd.loc(),
               f"a path changes the PDO data without pdo_parent.update(): a running cyclic transmission keeps the old payload: {path_text(wit) if wit else ''}")
+    writes = [n for n in fsd.cfg.nodes if n.kind == "stmt" and isinstance(n.ast, ast.Assign) and isinstance(n.ast.targets[0], ast.Subscript)
+              and src(n.ast.targets[0].value) == "self.pdo_parent.data"]
+    chk.floor(rule, len(writes), 2, "stores into pdo_parent.data")
+    for w in writes:
+        wit = must_pass(fsd.cfg, lambda n: node_calls(n, "pdo_parent.update"), from_node=w)
+        chk.check(wit is None, rule, f"{PB}:PdoVariable.set_data | task refreshed after `{src(w.ast)[:40]}`", sd.loc(w.ast),
+                  "pdo_parent.update() runs before the data is changed: the cyclic transmission is refreshed with the old payload")
